@@ -168,7 +168,10 @@ structure Env where
 /-- The `NodeCoords` that `Processor.get_nodes` yields for a path of plain key / index segments. -/
 def resolve (doc : Node) (a : Addr) : Option Coords :=
   match a.reverse with
-  | [] => some ⟨doc, none, none⟩
+  | [] =>
+    match doc with
+    | .scalar _ .null => none          -- `get_nodes` yields nothing for an empty (None) document
+    | _ => some ⟨doc, none, none⟩
   | last :: revInit =>
     match doc.get? revInit.reverse with
     | none => none
